@@ -243,6 +243,31 @@ macro_rules! inst_1d {
             go!("Linear", Linear::new());
             go!("Linear+extrapolate", Linear::new().extrapolate(true));
             go!("CubicSpline", CubicSpline::new());
+            // an explicit axis with a negative, non-dyadic start (so that (q - x0) + x0 != q) and the
+            // periodic spline, whose query path rewrites the query
+            if n >= 3 {
+                let xa: ndarray::Array1<f64> = (0..n).map(|i| -5.3 + 2.7 * i as f64).collect();
+                let last = xa[n - 1];
+                // (in-range queries are not formed from the axis start, so (q - x0) + x0 differs from q)
+                let q = q.mapv(|v| if v >= 0.0 && v <= (n - 1) as f64 { (0.8 * v - 0.55).min(last) } else { -5.3 + 2.7 * v });
+                let mut pdata = data.clone();
+                let first = pdata.index_axis(Axis(0), 0).to_owned();
+                pdata.index_axis_mut(Axis(0), n - 1).assign(&first);
+                macro_rules! go2 {
+                    ($sname:expr, $strat:expr, $data:expr) => {{
+                        let ip = nimc::valid_build!(out, Interp1DBuilder::new($data.clone()).x(xa.clone()).strategy($strat).build(), continue);
+                        let sname = format!("{}/query-layout-{ql}", $sname);
+                        let arr: R = catch(|| ip.interp_array(&q)).map(|r| r.map(|a| a.into_dyn()));
+                        let singles: Vec<R> = q.iter().map(|&x| catch(|| ip.interp(x)).map(|r| r.map(|a| a.into_dyn()))).collect();
+                        let into = into_call!(&expected, |w| ip.interp_array_into(&q, w));
+                        judge(c, &sname, 1, arr, singles, into, None, out);
+                        out.states += 1;
+                    }};
+                }
+                go2!("Linear(axis -2.8+1.1i)", Linear::new(), data);
+                go2!("CubicSpline/Periodic+extrapolate(axis -2.8+1.1i)", CubicSpline::new().extrapolate(true).boundary(ndarray_interp::interp1d::cubic_spline::BoundaryCondition::Periodic), pdata);
+                go2!("CubicSpline/Natural+extrapolate(axis -2.8+1.1i)", CubicSpline::new().extrapolate(true).boundary(ndarray_interp::interp1d::cubic_spline::BoundaryCondition::Natural), data);
+            }
           }
         }
     };
@@ -581,7 +606,7 @@ fn body(ctx: &Ctx) -> (Summary, Meta) {
         out
     }));
     let meta = Meta {
-        rule: "every instantiation {Interp1D x data Ix1..Ix6, IxDyn(rank 1,3,7,14,20); Interp2D x data Ix2..Ix6, IxDyn(rank 2,4,8,15)} x query dimension types Ix0..Ix4, IxDyn(rank 0..5; incl. dynamic rank 1, which takes the general path) x query shapes incl. empty ones x data shapes incl. a zero-length trailing axis x strategies {Linear, Linear+extrapolate, CubicSpline / Bilinear, Bilinear+extrapolate} x {all in range, one out-of-range element at the last / first / middle position}. Oracle: result shape = query shape ++ trailing data dims (also when the combined rank exceeds 6); interp_array(q)[i] == interp(q[i]) bit for bit; the batch is Ok iff every element is; interp_array_into into a poisoned window equals interp_array and leaves the surroundings intact; interp_scalar == interp. Queries hit knots exactly, repeat values, contain 0.0 next to -0.0 (the samples at the first knot are -0.0) and, in a separate group, are views into the same buffer as the axis. Phase huge-batches: batches of 2^21+9, 2^22+9 (thorough: 2^24+9) queries (results of 16 - 128 MiB) with four out-of-range elements, 1-d and 2-d query arrays, Linear / CubicSpline / Bilinear with and without extrapolation: interp_array and interp_array_into agree with element-wise interp_scalar in verdict and bits. Every case is non-trivial.".into(),
+        rule: "every instantiation {Interp1D x data Ix1..Ix6, IxDyn(rank 1,3,7,14,20); Interp2D x data Ix2..Ix6, IxDyn(rank 2,4,8,15)} x query dimension types Ix0..Ix4, IxDyn(rank 0..5; incl. dynamic rank 1, which takes the general path) x query shapes incl. empty ones x data shapes incl. a zero-length trailing axis x strategies {Linear, Linear+extrapolate, CubicSpline on the default axis; Linear, periodic and natural extrapolating CubicSpline on the explicit axis -5.3 + 2.7 i / Bilinear, Bilinear+extrapolate} x {all in range, one out-of-range element at the last / first / middle position}. Oracle: result shape = query shape ++ trailing data dims (also when the combined rank exceeds 6); interp_array(q)[i] == interp(q[i]) bit for bit; the batch is Ok iff every element is; interp_array_into into a poisoned window equals interp_array and leaves the surroundings intact; interp_scalar == interp. Queries hit knots exactly, repeat values, contain 0.0 next to -0.0 (the samples at the first knot are -0.0) and, in a separate group, are views into the same buffer as the axis. Phase huge-batches: batches of 2^21+9, 2^22+9 (thorough: 2^24+9) queries (results of 16 - 128 MiB) with four out-of-range elements, 1-d and 2-d query arrays, Linear / CubicSpline / Bilinear with and without extrapolation: interp_array and interp_array_into agree with element-wise interp_scalar in verdict and bits. Every case is non-trivial.".into(),
         bounds: format!("{ncases} cases over 78 static/dynamic instantiations x 3 (2) strategies; tier {}", ctx.tier.name()),
         assumptions: vec![],
         extra: vec![],
